@@ -558,7 +558,7 @@ async fn main() {
     let mut out = Out::create();
     let mut rng = Rng::from_env();
     let mut inst = Inst::start(&format!("inst{}", seed())).await;
-    let n = scale(60, 600);
+    let n = scale(150, 1500);
     let mut case_no = 0u64;
     // directed: a stream of six creations, then nothing else
     for _ in 0..scale(6, 30) {
